@@ -81,6 +81,8 @@ type vfConn struct {
 	onWrite   func(p []byte) // scripted peers react to what was written
 	pipe      net.Conn       // native replay of TLS paths: bytes go to a real peer instead of the script
 
+	strictClose bool // Read fails once Close has been called (handshake harnesses)
+
 	// deadline tracking (C16): the deadline in force at each transport Read / Write
 	trackDL  bool
 	dlR, dlW time.Time
@@ -114,6 +116,15 @@ func (c *vfConn) Read(p []byte) (int, error) {
 		c.ops = append(c.ops, vfOp{kind: vfOpRead, req: n})
 		c.lmu.Unlock()
 		return n, err
+	}
+	if c.strictClose {
+		// a closed connection fails its reads (as every real net.Conn does)
+		c.lmu.Lock()
+		closed := c.closed > 0
+		c.lmu.Unlock()
+		if closed {
+			return 0, net.ErrClosed
+		}
 	}
 	c.nreads++
 	if c.rerr != nil {
